@@ -91,7 +91,9 @@ func c12Ops() []mapOp {
 		k := k
 		for _, v := range []float64{1, 2} {
 			v := v
-			add(fmt.Sprintf("m.%s=%v", k, v), func(mapState, string) []pt.Stmt { return []pt.Stmt{pt.Assign{Target: pt.Dot{X: m, Key: k}, X: pt.N(v)}} })
+			add(fmt.Sprintf("m.%s=%v", k, v), func(mapState, string) []pt.Stmt {
+				return []pt.Stmt{pt.Assign{Target: pt.Dot{X: m, Key: k}, X: pt.N(v)}}
+			})
 			add(fmt.Sprintf("m[%q]=%v", k, v), func(mapState, string) []pt.Stmt {
 				return []pt.Stmt{pt.Assign{Target: pt.Index{X: m, I: pt.S(k)}, X: pt.N(v)}}
 			})
